@@ -16,6 +16,7 @@ fn main() {
 		mc_common::par::set_quiet(false);
 		let code = match prop.as_str() {
 			"C01" => checks::c01::replay(&name, &actions),
+			"C02" if v["replay"]["dust_case"].is_string() => checks::c02_dust::replay_case(v["replay"]["dust_case"].as_str().unwrap_or("")),
 			"C02" => checks::c02::replay("C02", &name, &actions),
 			"C03" => checks::c02::replay("C03", &name, &actions),
 			"C05" => checks::c05::replay(&name, &actions),
